@@ -21,6 +21,7 @@ def main(tier, replay, t0):
     max_depth = 0
     samples = []
     cases_used = 0
+    many_helpers_used = 0
     for c in camp.cases.values():
         if c.frontend_rejected:
             continue
@@ -48,6 +49,8 @@ def main(tier, replay, t0):
         reach = c.spec.reach()
         depth = c.truth["call_depth"]
         cases_used += 1
+        if "many-helpers" in getattr(c.spec, "families", []):
+            many_helpers_used += 1
         # coverage cells: (site, form, via call?) per access
         for f in c.spec.funcs + c.spec.entries:
             for a in f.actions:
@@ -112,6 +115,8 @@ def main(tier, replay, t0):
                                            list(bits.items())[:6]},
                             "wgsl_head": c.wgsl[:400]})
     inconclusive, ndecl = probes.decline_guard(camp, camp.cases.values())
+    if many_helpers_used == 0:
+        inconclusive.append("none of the many-helpers shaders (40-70 functions) was evaluated")
     sites_hit = {k[0] for k in cells}
     from gen.spec import S_SITES, E_SITES
     missing_sites = [s for s in S_SITES + E_SITES if s not in sites_hit]
